@@ -776,7 +776,26 @@ async fn acceptor(
                 let plan = cx.w.lock().unwrap().ctx.plans.get(&(client, id)).cloned();
                 let Some(plan) = plan else {
                     // a stream nobody planned: report it through the world as an anomaly
-                    cx.w.lock().unwrap().ctx.feature("unplanned_stream");
+                    let drain = {
+                        let mut w = cx.w.lock().unwrap();
+                        w.ctx.feature("unplanned_stream");
+                        w.ctx.params.knob("drain_unplanned") != 0
+                    };
+                    if drain {
+                        // an application that reads whatever its peer opens (to the end or
+                        // the first error), without judging the content
+                        let cx2 = cx.clone();
+                        let flow = FlowKey { client, stream: id, dir: if ep == SERVER { Dir::C2S } else { Dir::S2C } };
+                        spawn(async move {
+                            // receive-only streams are read to the end; a bidirectional one is
+                            // turned down as before (its handle is dropped)
+                            if let PeerStream::Receive(mut r) = stream {
+                                while let Ok(Some(c)) = r.receive().await {
+                                    cx2.op(ep, AppOp::Drained { flow, n: c.len() as u64 });
+                                }
+                            }
+                        });
+                    }
                     continue;
                 };
                 match stream {
